@@ -11,6 +11,7 @@ import (
 	"strings"
 
 	"golibcheck/internal/core"
+	"golibcheck/internal/paths"
 )
 
 // classEval (engine E10): partition evaluation of a function whose control flow depends on one integer
@@ -204,6 +205,10 @@ type classEval struct {
 	// forkUnknown: an if-condition that does not test the symbol is followed both ways (paths then
 	// overlap: the classes are a cover, not a partition)
 	forkUnknown bool
+	// innermost unrolled loop: where `break` and `continue` go
+	brk, cnt func(ceState)
+	hoisted  map[*ast.CallExpr]bool
+	tmpSeq   int
 	err   string
 	out   []cePath
 	depth int
@@ -604,7 +609,10 @@ func (c *classEval) valueHelper(st *ceState, call *ast.CallExpr) *core.FuncInfo 
 		return nil
 	}
 	if b, ok := sig.Results().At(0).Type().Underlying().(*types.Basic); !ok || b.Info()&types.IsInteger == 0 {
-		return nil
+		// or the bytes a class-dependent prefix is made of (blobLenPrefix(len(v)) []byte)
+		if sl, isSl := sig.Results().At(0).Type().Underlying().(*types.Slice); !isSl || !isBasicType(sl.Elem()) {
+			return nil
+		}
 	}
 	hf := c.p.FuncOf(fn)
 	if hf == nil || hf.Decl.Body == nil || hf.Pkg != c.fi.Pkg {
@@ -626,7 +634,25 @@ func (c *classEval) valueHelper(st *ceState, call *ast.CallExpr) *core.FuncInfo 
 		switch x := n.(type) {
 		case *ast.CallExpr:
 			if tv, ok := c.info.Types[x.Fun]; !ok || !tv.IsType() {
-				pure = false
+				// byte packers of the package (no receiver, no stream among the parameters) are values too
+				okCall := false
+				if cid, isId := ast.Unparen(x.Fun).(*ast.Ident); isId {
+					if cf, isF := c.info.Uses[cid].(*types.Func); isF && cf.Pkg() == fn.Pkg() {
+						csig := cf.Type().(*types.Signature)
+						okCall = csig.Recv() == nil
+						for i := 0; i < csig.Params().Len(); i++ {
+							if nt := namedOf(csig.Params().At(i).Type()); nt != nil && strings.HasPrefix(nt.Obj().Name(), "Data") {
+								okCall = false
+							}
+						}
+					}
+					if b, isB := c.info.Uses[cid].(*types.Builtin); isB && (b.Name() == "len" || b.Name() == "make" || b.Name() == "append" || b.Name() == "copy") {
+						okCall = true
+					}
+				}
+				if !okCall {
+					pure = false
+				}
 			}
 		case *ast.ForStmt, *ast.RangeStmt, *ast.GoStmt, *ast.DeferStmt, *ast.FuncLit:
 			pure = false
@@ -681,6 +707,14 @@ func (c *classEval) run(list []ast.Stmt, st ceState, k func(ceState), onRet ceRe
 		return
 	}
 	s, rest := list[0], list[1:]
+	// an argument computed by a helper that is followed when it stands alone (a stream helper of the
+	// receiver, a value helper over the class symbol) is computed into a temporary first:
+	//   in.ReadBytes(in.readBlobLen())        =>  t := in.readBlobLen(); in.ReadBytes(t)
+	//   out.WriteBytes(blobLenPrefix(len(v))) =>  t := blobLenPrefix(len(v)); out.WriteBytes(t)
+	if pre, ns := c.hoistHelperArgs(&st, s); len(pre) > 0 {
+		c.run(append(append(pre, ns), rest...), st, k, onRet)
+		return
+	}
 	cont := func(s2 ceState) { c.run(rest, s2, k, onRet) }
 	switch v := s.(type) {
 	case *ast.BlockStmt:
@@ -797,7 +831,24 @@ func (c *classEval) run(list []ast.Stmt, st ceState, k func(ceState), onRet ceRe
 							}
 						}
 						if !wasInl {
-							s2.stmts = append(s2.stmts, &ast.AssignStmt{Lhs: v.Lhs, TokPos: v.TokPos, Tok: v.Tok, Rhs: []ast.Expr{ret}})
+							// what the helper returned, in this frame's terms (parameters -> arguments)
+							repl := map[types.Object]ast.Expr{}
+							k := 0
+							for _, f := range hf.Decl.Type.Params.List {
+								for _, nm := range f.Names {
+									if k < len(call.Args) {
+										if o := hf.Pkg.TypesInfo.Defs[nm]; o != nil {
+											repl[o] = call.Args[k]
+										}
+									}
+									k++
+								}
+							}
+							rv := ret
+							if ne, ok := paths.Subst(c.info, ret, repl).(ast.Expr); ok {
+								rv = ne
+							}
+							s2.stmts = append(s2.stmts, &ast.AssignStmt{Lhs: v.Lhs, TokPos: v.TokPos, Tok: v.Tok, Rhs: []ast.Expr{rv}})
 						}
 						cont(s2)
 					})
@@ -852,7 +903,49 @@ func (c *classEval) run(list []ast.Stmt, st ceState, k func(ceState), onRet ceRe
 			return
 		}
 		c.runSwitch(v, st, cont, onRet)
+	case *ast.BranchStmt:
+		switch {
+		case v.Tok == token.BREAK && v.Label == nil && c.brk != nil:
+			c.brk(st)
+		case v.Tok == token.CONTINUE && v.Label == nil && c.cnt != nil:
+			c.cnt(st)
+		default:
+			c.fail(s, "%s outside an unrolled loop", v.Tok)
+		}
 	case *ast.ForStmt, *ast.RangeStmt:
+		// a range over a package-level table of constant records (for _, c := range decimalClasses)
+		// is the sequence of its bodies, one per record, with the record's fields in place
+		if rg, ok := s.(*ast.RangeStmt); ok {
+			if elems, vobj := c.constRecordTable(rg); elems != nil {
+				var iter func(i int, st ceState)
+				iter = func(i int, st ceState) {
+					if i == len(elems) {
+						cont(st)
+						return
+					}
+					body, ok := paths.SubstFields(c.info, rg.Body, map[types.Object]map[string]ast.Expr{vobj: elems[i]}).(*ast.BlockStmt)
+					if !ok {
+						c.fail(s, "cannot substitute the table record into the loop body")
+						return
+					}
+					oldB, oldC := c.brk, c.cnt
+					leave := func(next func(ceState)) func(ceState) {
+						return func(s2 ceState) {
+							sb, sc := c.brk, c.cnt
+							c.brk, c.cnt = oldB, oldC
+							next(s2)
+							c.brk, c.cnt = sb, sc
+						}
+					}
+					c.brk = leave(cont)
+					c.cnt = leave(func(s2 ceState) { iter(i+1, s2) })
+					c.run(body.List, st, leave(func(s2 ceState) { iter(i+1, s2) }), onRet)
+					c.brk, c.cnt = oldB, oldC
+				}
+				iter(0, st)
+				return
+			}
+		}
 		// loops that touch neither the stream nor the class symbol are opaque: skipped, with the
 		// locals they assign forgotten
 		touches := false
@@ -1042,4 +1135,157 @@ func emitNames(em []ceEmit) string {
 		s = append(s, e.Method+"("+strings.Join(e.Args, ",")+")")
 	}
 	return strings.Join(s, " ")
+}
+
+// constRecordTable: rg ranges (value variable only) over a package-level array/slice literal of
+// struct records whose fields are all constants, never assigned elsewhere; returns the records as
+// field-name -> constant expression maps, and the value variable.
+func (c *classEval) constRecordTable(rg *ast.RangeStmt) ([]map[string]ast.Expr, types.Object) {
+	vid, ok := rg.Value.(*ast.Ident)
+	if !ok || vid.Name == "_" {
+		return nil, nil
+	}
+	if rg.Key != nil {
+		if kid, ok := rg.Key.(*ast.Ident); !ok || kid.Name != "_" {
+			return nil, nil
+		}
+	}
+	id, ok := ast.Unparen(rg.X).(*ast.Ident)
+	if !ok {
+		return nil, nil
+	}
+	pv, ok := c.info.ObjectOf(id).(*types.Var)
+	if !ok || pv.Pkg() == nil || pv.Parent() != pv.Pkg().Scope() {
+		return nil, nil
+	}
+	ce := &constEvaluator{p: c.p}
+	if !ce.pkgVarStable(pv) {
+		return nil, nil
+	}
+	var lit *ast.CompositeLit
+	for _, f := range c.fi.Pkg.Syntax {
+		for _, d := range f.Decls {
+			gd, ok := d.(*ast.GenDecl)
+			if !ok || gd.Tok != token.VAR {
+				continue
+			}
+			for _, sp := range gd.Specs {
+				vs := sp.(*ast.ValueSpec)
+				for i, nm := range vs.Names {
+					if c.info.Defs[nm] == pv && i < len(vs.Values) {
+						lit, _ = ast.Unparen(vs.Values[i]).(*ast.CompositeLit)
+					}
+				}
+			}
+		}
+	}
+	if lit == nil || len(lit.Elts) == 0 || len(lit.Elts) > 64 {
+		return nil, nil
+	}
+	var et types.Type
+	switch u := pv.Type().Underlying().(type) {
+	case *types.Array:
+		et = u.Elem()
+	case *types.Slice:
+		et = u.Elem()
+	default:
+		return nil, nil
+	}
+	st, ok := et.Underlying().(*types.Struct)
+	if !ok {
+		return nil, nil
+	}
+	var out []map[string]ast.Expr
+	for _, el := range lit.Elts {
+		rec, ok := ast.Unparen(el).(*ast.CompositeLit)
+		if !ok {
+			return nil, nil
+		}
+		m := map[string]ast.Expr{}
+		for k, fe := range rec.Elts {
+			name, val := "", fe
+			if kv, ok := fe.(*ast.KeyValueExpr); ok {
+				kid, ok := kv.Key.(*ast.Ident)
+				if !ok {
+					return nil, nil
+				}
+				name, val = kid.Name, kv.Value
+			} else if k < st.NumFields() {
+				name = st.Field(k).Name()
+			}
+			if tv, ok := c.info.Types[val]; !ok || tv.Value == nil {
+				return nil, nil
+			}
+			m[name] = val
+		}
+		// fields left out of a keyed literal are zero: not modelled
+		if len(m) != st.NumFields() {
+			return nil, nil
+		}
+		out = append(out, m)
+	}
+	return out, c.info.ObjectOf(vid)
+}
+
+// hoistHelperArgs: see run. Only the arguments of the outermost call of an expression statement or of a
+// single-result return are looked at, once per statement (the temporaries are fresh variables).
+func (c *classEval) hoistHelperArgs(st *ceState, s ast.Stmt) ([]ast.Stmt, ast.Stmt) {
+	var call *ast.CallExpr
+	switch v := s.(type) {
+	case *ast.ExprStmt:
+		call, _ = ast.Unparen(v.X).(*ast.CallExpr)
+	case *ast.ReturnStmt:
+		if len(v.Results) == 1 {
+			call, _ = ast.Unparen(v.Results[0]).(*ast.CallExpr)
+		}
+	}
+	if call == nil || len(call.Args) == 0 || c.hoisted[call] {
+		return nil, nil
+	}
+	var pre []ast.Stmt
+	args := append([]ast.Expr{}, call.Args...)
+	for i, a := range call.Args {
+		ac, ok := ast.Unparen(a).(*ast.CallExpr)
+		if !ok {
+			continue
+		}
+		if c.inlinable(st, ac) == nil && c.valueHelper(st, ac) == nil {
+			continue
+		}
+		t := c.info.TypeOf(ac)
+		if t == nil {
+			continue
+		}
+		if _, isTuple := t.(*types.Tuple); isTuple {
+			continue
+		}
+		c.tmpSeq++
+		name := fmt.Sprintf("zzarg%d", c.tmpSeq)
+		obj := types.NewVar(ac.Pos(), c.fi.Obj.Pkg(), name, t)
+		def := &ast.Ident{NamePos: ac.Pos(), Name: name}
+		use := &ast.Ident{NamePos: ac.Pos(), Name: name}
+		c.info.Defs[def] = obj
+		c.info.Uses[use] = obj
+		c.info.Types[use] = types.TypeAndValue{Type: t}
+		pre = append(pre, &ast.AssignStmt{Lhs: []ast.Expr{def}, TokPos: ac.Pos(), Tok: token.DEFINE, Rhs: []ast.Expr{ac}})
+		args[i] = use
+	}
+	if len(pre) == 0 {
+		return nil, nil
+	}
+	nc := &ast.CallExpr{Fun: call.Fun, Lparen: call.Lparen, Args: args, Ellipsis: call.Ellipsis, Rparen: call.Rparen}
+	if tv, ok := c.info.Types[call]; ok {
+		c.info.Types[nc] = tv
+	}
+	if c.hoisted == nil {
+		c.hoisted = map[*ast.CallExpr]bool{}
+	}
+	c.hoisted[nc] = true
+	switch v := s.(type) {
+	case *ast.ExprStmt:
+		return pre, &ast.ExprStmt{X: nc}
+	case *ast.ReturnStmt:
+		return pre, &ast.ReturnStmt{Return: v.Return, Results: []ast.Expr{nc}}
+	}
+	return nil, nil
 }
